@@ -2,7 +2,7 @@
    from the source (Gen/FromBodyForm.v), and the executable run of the model over several horizons with its event log - what the
    correspondence compares with the calls telingo makes on clingo's backend. *)
 From Coq Require Import List Bool Arith ZArith Lia String.
-Require Import GenPrelude TheoryPrelude FromTheory FormPrelude FromBodyForm TEL Leaf_theory BodyForm BodyTheoryFull.
+Require Import GenPrelude TheoryPrelude FromTheory FormPrelude FromBodyForm TEL TheorySem BodyTheoryFull.
 Import ListNotations.
 Local Open Scope string_scope.
 Local Open Scope nat_scope.
